@@ -20,9 +20,9 @@ import (
 
 func TestC15(t *testing.T) {
 	mon.Main(t, mon.Check{
-		ID:    "C15",
-		Level: "exploration",
-		Rule: "three real connection types driven as net.Conn: (G) NoiseGrpcConn after real Client/ServerHandshake over an in-memory ProxyConn; (T) NoiseConn: client through mailbox.Dial with an in-memory dialer, server side wrapped as Listener.doHandshake does (hook); (L) the same pair through the real mailbox.Listener and mailbox.Dial over loopback TCP; (K) the plain mailbox connKit: real ClientConn and ServerConn (GBN inside) over the in-memory relay, no noise. For each, PRNG sequences of writes (sizes from {0,1,2,32767,32768,32769,65534,65535} and random, beyond 65535 up to 300000 on the TCP variant) and PRNG sequences of read-buffer sizes from {1,2,3,17,4096,32767,32768,32769,65535,100000} (+0..2). Oracles per Read: 0 <= n <= len(buf), bytes beyond n untouched, the bytes returned are the next bytes of the written stream; at the end the concatenation of reads equals the concatenation of writes; per Write: n == len(b) with a nil error, or an error; a write larger than one record on the gRPC variant returns ErrMaxMessageLengthExceeded and nothing of it reaches the reader, on the TCP variant it is chunked transparently. A twelfth of the cases interrupt a large write on the TCP variant with transport write timeouts and resume it with Flush/Write. A twelfth of the cases inject a transport write timeout into one record of the gRPC variant (header or body, nothing or half of it accepted), the caller retries once, and the reader must see exactly the bytes the Write calls reported as written. Non-trivial = a transfer that used at least one read buffer smaller than a record and one larger; distinct = (variant, sizes hash).",
+		ID:          "C15",
+		Level:       "exploration",
+		Rule:        "three real connection types driven as net.Conn: (G) NoiseGrpcConn after real Client/ServerHandshake over an in-memory ProxyConn; (T) NoiseConn: client through mailbox.Dial with an in-memory dialer, server side wrapped as Listener.doHandshake does (hook); (L) the same pair through the real mailbox.Listener and mailbox.Dial over loopback TCP; (K) the plain mailbox connKit: real ClientConn and ServerConn (GBN inside) over the in-memory relay, no noise. For each, PRNG sequences of writes (sizes from {0,1,2,32767,32768,32769,65534,65535} and random, beyond 65535 up to 300000 on the TCP variant) and PRNG sequences of read-buffer sizes from {1,2,3,17,4096,32767,32768,32769,65535,100000} (+0..2). Oracles per Read: 0 <= n <= len(buf), bytes beyond n untouched, the bytes returned are the next bytes of the written stream; at the end the concatenation of reads equals the concatenation of writes; per Write: n == len(b) with a nil error, or an error; a write larger than one record on the gRPC variant returns ErrMaxMessageLengthExceeded and nothing of it reaches the reader, on the TCP variant it is chunked transparently. A twelfth of the cases interrupt a large write on the TCP variant with transport write timeouts and resume it with Flush/Write. A twelfth of the cases inject a transport write timeout into one record of the gRPC variant (header or body, nothing or half of it accepted), the caller retries once, and the reader must see exactly the bytes the Write calls reported as written. Non-trivial = a transfer that used at least one read buffer smaller than a record and one larger; distinct = (variant, sizes hash).",
 		Assumptions: []string{"a zero-length write produces an empty record; what Read returns for it (0 bytes) is not judged beyond the three clauses of the statement"},
 		NCases: func(tier string) int {
 			if tier == "thorough" {
@@ -42,16 +42,16 @@ type fakeProxy struct {
 	*sim.Duplex
 }
 
-func (f *fakeProxy) Close() error                                   { f.In.Close(); f.Out.Close(); return nil }
-func (f *fakeProxy) LocalAddr() net.Addr                            { return &mailbox.Addr{Server: "fake"} }
-func (f *fakeProxy) RemoteAddr() net.Addr                           { return &mailbox.Addr{Server: "fake"} }
-func (f *fakeProxy) SetDeadline(time.Time) error                    { return nil }
-func (f *fakeProxy) SetReadDeadline(time.Time) error                { return nil }
-func (f *fakeProxy) SetWriteDeadline(time.Time) error               { return nil }
-func (f *fakeProxy) ReceiveControlMsg(mailbox.ControlMsg) error     { return errors.New("unused") }
-func (f *fakeProxy) SendControlMsg(mailbox.ControlMsg) error        { return errors.New("unused") }
-func (f *fakeProxy) SetRecvTimeout(time.Duration)                   {}
-func (f *fakeProxy) SetSendTimeout(time.Duration)                   {}
+func (f *fakeProxy) Close() error                               { f.In.Close(); f.Out.Close(); return nil }
+func (f *fakeProxy) LocalAddr() net.Addr                        { return &mailbox.Addr{Server: "fake"} }
+func (f *fakeProxy) RemoteAddr() net.Addr                       { return &mailbox.Addr{Server: "fake"} }
+func (f *fakeProxy) SetDeadline(time.Time) error                { return nil }
+func (f *fakeProxy) SetReadDeadline(time.Time) error            { return nil }
+func (f *fakeProxy) SetWriteDeadline(time.Time) error           { return nil }
+func (f *fakeProxy) ReceiveControlMsg(mailbox.ControlMsg) error { return errors.New("unused") }
+func (f *fakeProxy) SendControlMsg(mailbox.ControlMsg) error    { return errors.New("unused") }
+func (f *fakeProxy) SetRecvTimeout(time.Duration)               {}
+func (f *fakeProxy) SetSendTimeout(time.Duration)               {}
 
 var _ mailbox.ProxyConn = (*fakeProxy)(nil)
 
@@ -80,7 +80,10 @@ func runC15WriteFault(c *mon.Case) {
 	var ce, se error
 	var cc, sc net.Conn
 	wg.Add(2)
-	go func() { defer wg.Done(); cc, _, ce = cp.Noise.ClientHandshake(context.Background(), "", &fakeProxy{da}) }()
+	go func() {
+		defer wg.Done()
+		cc, _, ce = cp.Noise.ClientHandshake(context.Background(), "", &fakeProxy{da})
+	}()
 	go func() { defer wg.Done(); sc, _, se = sp.Noise.ServerHandshake(&fakeProxy{db}) }()
 	wg.Wait()
 	if ce != nil || se != nil {
@@ -299,7 +302,10 @@ func c15Pair(variant string, rng *rand.Rand) (a, b net.Conn, cleanup func(), err
 		var ce, se error
 		var cc, sc net.Conn
 		wg.Add(2)
-		go func() { defer wg.Done(); cc, _, ce = cp.Noise.ClientHandshake(context.Background(), "", &fakeProxy{da}) }()
+		go func() {
+			defer wg.Done()
+			cc, _, ce = cp.Noise.ClientHandshake(context.Background(), "", &fakeProxy{da})
+		}()
 		go func() { defer wg.Done(); sc, _, se = sp.Noise.ServerHandshake(&fakeProxy{db}) }()
 		wg.Wait()
 		if ce != nil || se != nil {
